@@ -306,7 +306,18 @@ func rtmpWriteFaults(s Session) (cnt counts, err error) {
 		}
 		return nil
 	}
+	near := func(n int) bool { // boundaries of messages and of the writer's 4096-byte buffer, +-2
+		for _, e := range ends {
+			if n >= e-2 && n <= e+2 {
+				return true
+			}
+		}
+		return n%4096 <= 2 || n%4096 >= 4094
+	}
 	for n := 0; n < len(wire); n++ {
+		if len(wire) > 4096 && n%5 != 0 && !near(n) {
+			continue // large sessions: every 5th byte count plus all boundaries
+		}
 		sent := xport.NewSentinel(n, fmt.Sprintf("injected write fault after %d bytes", n))
 		if e := run(&xport.ErrWriter{AfterBytes: n, FailAt: -1, Err: sent}, sent, fmt.Sprintf("transport accepts %d of %d bytes", n, len(wire))); e != nil && e != errNotReached {
 			return cnt, e
@@ -467,15 +478,14 @@ func flvFaults(f FFile, segs [][]int) (cnt counts, err error) {
 		isEnd[e] = true
 	}
 	check := func(got []flvref.Tag, delivered int, what string) error {
-		lo, hi := 0, 0 // lo: tags complete incl. PreviousTagSize; hi: tags whose body is complete
+		// ReadTag reads the body and the 4-byte PreviousTagSize: a stream that ends inside either makes
+		// the operation in progress (ReadTag) fail, so only tags whose trailer arrived are returned
+		lo := 0
 		for lo < len(ends) && ends[lo] <= delivered {
 			lo++
 		}
-		for hi < len(ends) && ends[hi]-4 <= delivered {
-			hi++
-		}
-		if len(got) < lo || len(got) > hi {
-			return fmt.Errorf("%s: %d tags returned, %d were completely transferred", what, len(got), lo)
+		if len(got) != lo {
+			return fmt.Errorf("%s: %d tags returned with a nil error, %d were completely transferred (tag + PreviousTagSize)", what, len(got), lo)
 		}
 		for i, g := range got {
 			if g.Type != want[i].Type || g.Timestamp != want[i].Timestamp || !bytes.Equal(g.Body, want[i].Body) {
@@ -800,6 +810,10 @@ func TestRtmpWriteFaults(t *testing.T) {
 	ev.Rapid(t, "rtmp-write-faults", 150, 3000, func(t *rapid.T) {
 		s := genSession(t)
 		s.Ref = false
+		if rapid.IntRange(0, 5).Draw(t, "bigmsg") == 0 {
+			// one message larger than the writer's 4096-byte buffer: several transport writes per message
+			s.Msgs = append(s.Msgs, M{Type: 9, Sid: 1, Ts: 77, Len: rapid.SampledFrom([]int{4097, 5000, 9000}).Draw(t, "biglen"), Fill: 5})
+		}
 		var cnt counts
 		err := ev.Try(func() error {
 			var e error
